@@ -513,6 +513,240 @@ theorem l1_eq_some_iff (v : Gen.Variant) (d : Decoder (famOfVariant v)) (bytes :
   · rw [if_neg hN]
     exact ⟨fun h => (by cases h), fun h => absurd h.1 hN⟩
 
+/-! ### `l1_sound`: what the answer means for the caller -/
+
+/-- the bytes the query of variant `v` counts -/
+def passP : Gen.Variant → Nat → Bool
+  | .singleByte t _ _ _ => fun b => decide (b < 0x80 ∨ (Gen.singleByteTables.getD t #[]).getD (b - 0x80) 0 = b)
+  | .iso2022Jp => fun b => decide (b < 0x80 ∧ b ≠ 0x0E ∧ b ≠ 0x0F ∧ b ≠ 0x1B)
+  | _ => fun b => decide (b < 0x80)
+
+theorem l1LenV_eq (v : Gen.Variant) (bytes : List Nat) : l1LenV v bytes = upTo (passP v) bytes := by
+  cases v
+  case singleByte t a b c => exact singleByteL1_eq _ bytes
+  case iso2022Jp => exact iso2022JpAsciiValidUpTo_eq bytes
+  all_goals exact asciiValidUpTo_eq bytes
+
+/-- the bytes counted for whichever decoder is current -/
+def passCur (v : Gen.Variant) : Cur (famOfVariant v) → Nat → Bool
+  | .nominal _ => passP v
+  | _ => fun b => decide (b < 0x80)
+
+theorem l1Len_eq (v : Gen.Variant) (c : Cur (famOfVariant v)) (bytes : List Nat) :
+    l1Len v c bytes = upTo (passCur v c) bytes := by
+  cases c
+  case nominal s => exact l1LenV_eq v bytes
+  all_goals exact asciiValidUpTo_eq bytes
+
+/-- every byte of the counted prefix satisfies the predicate -/
+theorem upTo_take_all (P : Nat → Bool) (bytes : List Nat) : ∀ x ∈ bytes.take (upTo P bytes), P x = true := by
+  induction bytes with
+  | nil => intro x hx; simp [upTo] at hx
+  | cons b r ih =>
+    intro x hx
+    simp only [upTo] at hx
+    by_cases hb : P b = true
+    · simp only [hb, if_true, List.take_succ_cons, List.mem_cons] at hx
+      cases hx with
+      | inl h => rw [h]; exact hb
+      | inr h => exact ih x h
+    · simp [hb] at hx
+
+theorem singleByte_pass0 (t : Array Nat) (b : Nat) (h : b < 0x80 ∨ t.getD (b - 0x80) 0 = b) :
+    (singleByteFam t).feed () b = ⟨(), [b], none, false⟩ := by
+  by_cases h0 : b = 0
+  · subst h0
+    show singleByteFeed t () 0 = _
+    simp [singleByteFeed, FeedRes.ok]; rfl
+  · exact singleByte_pass t b h h0
+
+/-- UTF-8 with no sequence pending passes ASCII through and stays put, whatever the other fields hold -/
+theorem utf8_pass_needed (s : Utf8St) (hn : s.needed = 0) (b : Nat) (h : b < 0x80) :
+    utf8Fam.feed s b = ⟨s, [b], none, false⟩ := by
+  show utf8Feed s b = _
+  simp [utf8Feed, hn, h, FeedRes.ok]; rfl
+
+/-- **in a neutral state every counted byte is passed through as the scalar value equal to the
+byte, without error, and the state does not change** — uniformly for the 13 variants -/
+theorem neutral_pass (v : Gen.Variant) (s : (famOfVariant v).σ) (hn : NeutralSt v s) :
+    (famOfVariant v).pend s = none ∧
+    ∀ b, passP v b = true → (famOfVariant v).feed s b = ⟨s, [b], none, false⟩ := by
+  cases v with
+  | singleByte t a b c =>
+    exact ⟨rfl, fun x hx => singleByte_pass0 _ x (of_decide_eq_true hx)⟩
+  | utf8 => exact ⟨rfl, fun x hx => utf8_pass_needed s hn x (of_decide_eq_true hx)⟩
+  | gbk =>
+    have hs : s = gbInit := hn
+    subst hs
+    exact ⟨rfl, fun x hx => gb_pass x (of_decide_eq_true hx)⟩
+  | gb18030 =>
+    have hs : s = gbInit := hn
+    subst hs
+    exact ⟨rfl, fun x hx => gb_pass x (of_decide_eq_true hx)⟩
+  | big5 =>
+    have hs : s = none := hn
+    subst hs
+    exact ⟨rfl, fun x hx => twoByte_pass _ _ _ x (of_decide_eq_true hx)⟩
+  | eucJp =>
+    have hs : s = EucJpSt.none := hn
+    subst hs
+    exact ⟨rfl, fun x hx => eucJp_pass x (of_decide_eq_true hx)⟩
+  | iso2022Jp =>
+    have hs : s = isoInit := hn
+    subst hs
+    exact ⟨rfl, fun x hx => iso_pass x (of_decide_eq_true hx)⟩
+  | shiftJis =>
+    have hs : s = none := hn
+    subst hs
+    exact ⟨rfl, fun x hx => twoByte_pass _ _ _ x (of_decide_eq_true hx)⟩
+  | eucKr =>
+    have hs : s = none := hn
+    subst hs
+    exact ⟨rfl, fun x hx => twoByte_pass _ _ _ x (of_decide_eq_true hx)⟩
+  | replacement => exact hn.elim
+  | utf16Be => exact hn.elim
+  | utf16Le => exact hn.elim
+  | userDefined => exact ⟨rfl, fun x hx => userDefined_pass x (of_decide_eq_true hx)⟩
+
+/-- one step of whichever decoder is current passes the byte through unchanged and stays put -/
+def CurPasses {F : Fam} : Cur F → Nat → Prop
+  | .nominal s, b => F.feed s b = ⟨s, [b], none, false⟩
+  | .utf8 s, b => utf8Fam.feed s b = ⟨s, [b], none, false⟩
+  | .utf16be s, b => (utf16Fam true).feed s b = ⟨s, [b], none, false⟩
+  | .utf16le s, b => (utf16Fam false).feed s b = ⟨s, [b], none, false⟩
+
+/-- no delayed output is owed by whichever decoder is current -/
+def CurNoPend {F : Fam} : Cur F → Prop
+  | .nominal s => F.pend s = none
+  | .utf8 s => utf8Fam.pend s = none
+  | .utf16be s => (utf16Fam true).pend s = none
+  | .utf16le s => (utf16Fam false).pend s = none
+
+theorem neutralCur_pass (v : Gen.Variant) (c : Cur (famOfVariant v)) (hn : NeutralCur v c) :
+    CurNoPend c ∧ ∀ b, passCur v c b = true → CurPasses c b := by
+  cases c with
+  | nominal s => exact neutral_pass v s hn
+  | utf8 s => exact ⟨rfl, fun x hx => utf8_pass_needed s hn x (of_decide_eq_true hx)⟩
+  | utf16be s => exact hn.elim
+  | utf16le s => exact hn.elim
+
+/-- generic: the three facts of `AsciiRunSpec` for an arbitrary pass-through predicate -/
+theorem pass_run_spec (F : Fam) (s : F.σ) (P : Nat → Bool) (hp : F.pend s = none)
+    (hP : ∀ b, P b = true → F.feed s b = ⟨s, [b], none, false⟩) (bytes rest : List Nat) (pos : Nat) :
+    upTo P bytes ≤ bytes.length ∧
+    ref F s (bytes.take (upTo P bytes) ++ rest) pos
+      = (bytes.take (upTo P bytes)).map Ev.cp ++ ref F s rest (pos + upTo P bytes) ∧
+    (upTo P bytes < bytes.length → ∃ b, bytes[upTo P bytes]? = some b ∧ P b = false) :=
+  ⟨upTo_le _ _, prefix_identity F s P hp hP bytes rest pos, upTo_maximal P bytes⟩
+
+/-- **C19 `l1_sound` (a), stream level**: if the decoder answers `some n` then `n ≤ bytes.length`,
+what the decoder says (`dref`: BOM life cycle + current variant decoder, the reference
+semantics the calls are proved sound against in C10) about any stream that starts with the
+first `n` bytes is: exactly those `n` byte values as scalar values, no error, followed by what
+the *same* decoder state `d` says about the rest; and `n` does not stop inside a run of counted
+bytes. For all 13 variants and for the UTF-8 decoder after a BOM switch. -/
+theorem l1_sound_ref (v : Gen.Variant) (d : Decoder (famOfVariant v)) (bytes : List Nat) (n : Nat)
+    (h : Decoder.l1 v d bytes = some n) (rest : List Nat) (pos : Nat) :
+    n ≤ bytes.length ∧
+    Lemmas.Life.dref d (bytes.take n ++ rest) pos
+      = (bytes.take n).map Ev.cp ++ Lemmas.Life.dref d rest (pos + n) ∧
+    (n < bytes.length → ∃ b, bytes[n]? = some b ∧ passCur v d.cur b = false) := by
+  obtain ⟨⟨hl, hc⟩, hn⟩ := (l1_eq_some_iff v d bytes n).1 h
+  obtain ⟨life, cur⟩ := d
+  simp only at hl hc hn
+  subst hl
+  rw [l1Len_eq] at hn
+  subst hn
+  obtain ⟨hp, hpass⟩ := neutralCur_pass v cur hc
+  show _ ∧ Lemmas.Life.curRef cur _ _ = _ ++ Lemmas.Life.curRef cur _ _ ∧ _
+  cases cur with
+  | nominal s => exact pass_run_spec (famOfVariant v) s _ hp hpass bytes rest pos
+  | utf8 s => exact pass_run_spec utf8Fam s _ hp hpass bytes rest pos
+  | utf16be s => exact hc.elim
+  | utf16le s => exact hc.elim
+
+/-! #### call level -/
+
+/-- the budgets under which a call over `n` pass-through bytes is not cut short by `OutputFull`:
+no limit, or a limit of at least `n` steps -/
+def Covers : Budget → Nat → Prop
+  | .unlimited, _ => True
+  | .full m, n => n ≤ m
+  | .altAny, _ => False
+
+/-- the main loop over a run of bytes each of which is passed through unchanged from a state it
+does not change: everything is read and written, `InputEmpty`, same state -/
+theorem run_pass (F : Fam) (k : Sink) (s : F.σ) :
+    ∀ (l : List Nat) (b : Budget), Covers b l.length →
+      (∀ x ∈ l, F.feed s x = ⟨s, [x], none, false⟩) →
+      run F k false s l b = ⟨.inputEmpty, l.length, l, s, 0⟩ := by
+  intro l
+  induction l with
+  | nil => intro b _ _; simp [run]
+  | cons x r ih =>
+    intro b hb hpass
+    have hx := hpass x (List.mem_cons_self ..)
+    have hstop : stopHere F k s x r b = none := by
+      cases b with
+      | unlimited => rfl
+      | full m =>
+        simp only [Covers, List.length_cons] at hb
+        simp only [stopHere]
+        rw [if_neg (by omega)]
+      | altAny => exact hb.elim
+    have hb' : Covers b.dec r.length := by
+      cases b with
+      | unlimited => trivial
+      | full m =>
+        simp only [Covers, Budget.dec, List.length_cons] at hb ⊢
+        omega
+      | altAny => exact hb.elim
+    rw [run, hstop]
+    simp only [hx]
+    rw [ih b.dec hb' (fun y hy => hpass y (List.mem_cons_of_mem _ hy))]
+    simp
+
+theorem call_pass (F : Fam) (k : Sink) (s : F.σ) (l : List Nat) (b : Budget) (hp : F.pend s = none)
+    (hb : Covers b l.length) (hpass : ∀ x ∈ l, F.feed s x = ⟨s, [x], none, false⟩) :
+    Model.call F k s l false b = ⟨.inputEmpty, l.length, l, s, 0⟩ := by
+  unfold Model.call
+  rw [hp]
+  exact run_pass F k s l b hb hpass
+
+theorem cur_call_pass {F : Fam} (k : Sink) (c : Cur F) (l : List Nat) (b : Budget) (hp : CurNoPend c)
+    (hb : Covers b l.length) (hpass : ∀ x ∈ l, CurPasses c x) :
+    c.call k l false b = ⟨.inputEmpty, l.length, l, c, 0⟩ := by
+  cases c with
+  | nominal s => simp only [Cur.call, call_pass F k s l b hp hb hpass]
+  | utf8 s => simp only [Cur.call, call_pass utf8Fam k s l b hp hb hpass]
+  | utf16be s => simp only [Cur.call, call_pass (utf16Fam true) k s l b hp hb hpass]
+  | utf16le s => simp only [Cur.call, call_pass (utf16Fam false) k s l b hp hb hpass]
+
+/-- **C19 `l1_sound` (b), call level**: if the decoder answers `some n`, then the raw
+(`*_without_replacement`) call that is handed exactly the first `n` bytes (not `last`; any sink;
+any stop policy that is not cut short by the output buffer, `Covers`) reads all `n` bytes, writes
+exactly those `n` byte values as scalar values, returns `InputEmpty` — no error — in one inner
+call, and **leaves the decoder in the state `d` it was in**. -/
+theorem l1_sound_call (v : Gen.Variant) (d : Decoder (famOfVariant v)) (bytes : List Nat) (n : Nat)
+    (h : Decoder.l1 v d bytes = some n) (k : Sink) (b1 b2 : Budget) (hb : Covers b2 n) :
+    Decoder.rawCall k d (bytes.take n) false b1 b2
+      = .ok .inputEmpty n (bytes.take n) d [(bytes.take n, .inputEmpty, 0)] := by
+  obtain ⟨⟨hl, hc⟩, hn⟩ := (l1_eq_some_iff v d bytes n).1 h
+  obtain ⟨life, cur⟩ := d
+  simp only at hl hc hn
+  subst hl
+  rw [l1Len_eq] at hn
+  obtain ⟨hp, hpass⟩ := neutralCur_pass v cur hc
+  have hlen : (bytes.take n).length = n := by
+    rw [List.length_take]; apply Nat.min_eq_left; rw [hn]; exact upTo_le _ _
+  have hall : ∀ x ∈ bytes.take n, CurPasses cur x := by
+    intro x hx; rw [hn] at hx; exact hpass x (upTo_take_all _ bytes x hx)
+  have hcall := cur_call_pass k cur (bytes.take n) b2 hp (by rw [hlen]; exact hb) hall
+  show checkingEnd k cur (bytes.take n) false b2 0 [] [] = _
+  unfold checkingEnd
+  simp only [List.drop_zero, hcall, hlen, Bool.false_eq_true, false_and, if_false, Nat.add_zero,
+    List.nil_append]
+
 /-! Non-vacuity -/
 example : singleByteL1 (Gen.singleByteTables.getD 19 #[]) [0x61, 0xE9, 0x62, 0x80, 0x63] = 3 := by decide +kernel
 example : asciiValidUpTo [0x61, 0x62, 0xE9] = 2 := by decide
